@@ -75,27 +75,14 @@ def main(run):
             run.violation('owned|is_base_64_encoded', f'DataUrlBuf::is_base_64_encoded is not the stored base_64 flag ({str(t)[:80]})')
     # ---- decoded_data (both forms): the data part, decoded with the STANDARD base64 alphabet (RFC 2397 / RFC 2045) exactly when the flag is set
     from .. import pathsens
-    for ty in ('uri::scheme::data::DataUrl', 'uri::scheme::data::DataUrlBuf'):
-        fn = ty + '::decoded_data'
-        b = P.body(fn)
-        run.count('decode_rules')
-        if b is None:
-            run.violation(f'decode|{fn}', f'{fn} not found')
-            continue
-        T = terms.Terms(b)
 
-        def is_data(x, ty=ty):
-            """the data part of self, as text or bytes"""
-            while x[0] in ('ref', 'deref') or (x[0] == 'call' and len(x[2]) == 1 and x[1].rsplit('::', 1)[-1] in ('as_bytes', 'as_str', 'as_ref')):
-                x = x[1] if x[0] in ('ref', 'deref') else x[2][0]
-            return x[0] == 'call' and x[1] == ty + '::encoded_data' and x[2] and x[2][0][:2] == ('arg', 1)
-
-        def engine_of(x, fn=fn):
-            """name of the base64 engine constant behind the receiver of decode (a promoted `&CONST` of this function)"""
+    def decode_rule(fn, b, T, is_data, flag_atom, init_env, tag):
+        """one body (decoded_data itself, or the private helper it hands its data and flag to)"""
+        def engine_of(x):
             while x[0] in ('ref', 'deref'):
                 x = x[1]
             if x[0] == 'item':
-                cands = [n for n in P.bodies if n.startswith(fn + '::promoted[')] if x[1] == fn else []
+                cands = [n for n in P.bodies if n.startswith(b['name'] + '::promoted[')] if x[1] == b['name'] else []
                 names = set()
                 for n in cands:
                     for bl in P.bodies[n]['blocks']:
@@ -106,40 +93,83 @@ def main(run):
                     names.add(x[1])
                 return names
             return {str(x)[:60]}
-
-        def atom_of(t, ty=ty):
-            if t[0] == 'call' and t[1] == ty + '::is_base_64_encoded' and t[2] and t[2][0][:2] == ('arg', 1):
-                return ('B64', False)
-            return None
         npaths = 0
-        for path, asm in pathsens.paths(b, T, atom_of):
+        for path, asm in pathsens.paths(b, T, flag_atom, init_env=init_env):
             npaths += 1
             d = dict(asm)
             dec = [b['blocks'][bi]['term'] for bi in path if b['blocks'][bi]['term']['k'] == 'call' and (mir.callee(b['blocks'][bi]['term']) or '').endswith('Engine::decode')]
             if d.get('B64') is True:
                 if len(dec) != 1:
-                    run.violation(f'decode|{fn}|flagged', f'{P.where(b)} {fn}: on the path where the value is flagged base64 the data is decoded {len(dec)} times (once expected)')
+                    run.violation(f'decode|{tag}|flagged', f'{P.where(b)} {fn}: on the path where the value is flagged base64 the data is decoded {len(dec)} times (once expected)')
                     continue
                 eng = engine_of(T.operand(dec[0]['args'][0]))
                 if not (len(eng) == 1 and next(iter(eng)).endswith('::STANDARD')):
-                    run.violation(f'decode|{fn}|engine', f'{P.where(b, dec[0].get("l"))} {fn}: the data is decoded with {sorted(eng)}, not with the standard base64 alphabet (base64::…::STANDARD) that RFC 2397 prescribes and the other form uses')
+                    run.violation(f'decode|{tag}|engine', f'{P.where(b, dec[0].get("l"))} {fn}: the data is decoded with {sorted(eng)}, not with the standard base64 alphabet (base64::…::STANDARD) that RFC 2397 prescribes and the other form uses')
                 if not is_data(T.operand(dec[0]['args'][1])):
-                    run.violation(f'decode|{fn}|input', f'{P.where(b, dec[0].get("l"))} {fn}: what is decoded is not encoded_data() of self')
+                    run.violation(f'decode|{tag}|input', f'{P.where(b, dec[0].get("l"))} {fn}: what is decoded is not encoded_data() of self')
             elif d.get('B64') is False:
                 if dec:
-                    run.violation(f'decode|{fn}|plain', f'{P.where(b)} {fn}: a value that is NOT flagged base64 is decoded')
+                    run.violation(f'decode|{tag}|plain', f'{P.where(b)} {fn}: a value that is NOT flagged base64 is decoded')
             else:
-                run.violation(f'decode|{fn}|flag', f'{P.where(b)} {fn}: a path does not test is_base_64_encoded() of self')
+                run.violation(f'decode|{tag}|flag', f'{P.where(b)} {fn}: a path does not test is_base_64_encoded() of self')
         r = T.ret()
         alts = r[1] if r[0] == 'phi' else (r,)
         plain = [a for a in alts if a[0] == 'agg' and a[1][:2] == ('adt', 'std::result::Result') and a[1][2] == 0]
         if len(plain) != 1 or not (plain[0][2][0][0] == 'agg' and plain[0][2][0][1][1].endswith('Cow') and is_data(plain[0][2][0][2][0])):
-            run.violation(f'decode|{fn}|borrowed', f'{P.where(b)} {fn}: the value returned for data that is not base64 is not Ok(Cow::Borrowed(the bytes of encoded_data()))')
+            run.violation(f'decode|{tag}|borrowed', f'{P.where(b)} {fn}: the value returned for data that is not base64 is not Ok(Cow::Borrowed(the bytes of encoded_data()))')
         coded = [a for a in alts if a not in plain]
         if len(coded) != 1 or not any(n[0] == 'call' and n[1].endswith('Engine::decode') for n in terms.walk(coded[0])):
-            run.violation(f'decode|{fn}|owned', f'{P.where(b)} {fn}: the value returned for base64 data is not the result of the decoder')
+            run.violation(f'decode|{tag}|owned', f'{P.where(b)} {fn}: the value returned for base64 data is not the result of the decoder')
         if npaths < 2:
-            run.violation(f'decode|{fn}|paths', f'{fn}: {npaths} path(s) (2 expected)')
+            run.violation(f'decode|{tag}|paths', f'{fn}: {npaths} path(s) (2 expected)')
+
+    def strip_views(x):
+        while x[0] in ('ref', 'deref') or (x[0] == 'call' and len(x[2]) == 1 and x[1].rsplit('::', 1)[-1] in ('as_bytes', 'as_str', 'as_ref')):
+            x = x[1] if x[0] in ('ref', 'deref') else x[2][0]
+        return x
+    for ty in ('uri::scheme::data::DataUrl', 'uri::scheme::data::DataUrlBuf'):
+        fn = ty + '::decoded_data'
+        b = P.body(fn)
+        run.count('decode_rules')
+        if b is None:
+            run.violation(f'decode|{fn}', f'{fn} not found')
+            continue
+        T = terms.Terms(b)
+
+        def self_data(x, ty=ty):
+            x = strip_views(x)
+            return x[0] == 'call' and x[1] == ty + '::encoded_data' and bool(x[2]) and x[2][0][:2] == ('arg', 1)
+
+        def self_flag(x, ty=ty):
+            x = strip_views(x)
+            return x[0] == 'call' and x[1] == ty + '::is_base_64_encoded' and bool(x[2]) and x[2][0][:2] == ('arg', 1)
+
+        def atom_of(t, ty=ty):
+            if t[0] == 'call' and t[1] == ty + '::is_base_64_encoded' and t[2] and t[2][0][:2] == ('arg', 1):
+                return ('B64', False)
+            return None
+        has_decode = any((mir.callee(t) or '').endswith('Engine::decode') for _, t in P.calls(b))
+        helper = None
+        if not has_decode:
+            # the body may hand (data, flag) to a private helper that does the work: the rule is applied to the helper under that binding
+            for bi, t in P.calls(b):
+                c = mir.callee(t) or ''
+                hb = P.body(c)
+                if hb is None or hb.get('vis') == 'pub' or not c.startswith('uri::scheme::data::'):
+                    continue
+                ops = [T.operand(a) for a in t['args']]
+                di = [i for i, o in enumerate(ops) if self_data(o)]
+                fi = [i for i, o in enumerate(ops) if self_flag(o)]
+                rt = T.ret()
+                if len(di) == 1 and len(fi) == 1 and len(ops) == 2 and rt[0] == 'call' and rt[1] == c:
+                    helper = (c, hb, di[0] + 1, fi[0] + 1)
+        if helper is not None:
+            c, hb, dpos, fpos = helper
+            HT = terms.Terms(hb)
+            decode_rule(f'{fn} (through its private helper {c})', hb, HT, lambda x, dpos=dpos: strip_views(x)[:2] == ('arg', dpos), lambda t: None,
+                        {fpos: ('atom', 'B64', False)}, fn)
+        else:
+            decode_rule(fn, b, T, self_data, atom_of, None, fn)
     run.floor('decode_rules', 2, 'decoded_data of the borrowed and the owned form')
     # ---- scanner part (Engine S): the scanners against the documented shape, for all texts
     from .. import dataurl
